@@ -22,7 +22,7 @@ func specBE32(d []byte, i int) uint32 {
 }
 
 // the time base is the constant security.MinTime; nobody but the initialiser assigns it
-//@ global inv_offset
+// @ global inv_offset
 func inv_offset() bool { return offset == 1514764800 }
 
 //@ verify init post=inv_offset props=C06,C19
@@ -37,17 +37,17 @@ const specMaxID = 1 << 20 // ids are a few dozen bytes; the bound only keeps 4*l
 
 // ---- NewPrefix / SetTime / Time / Contract / HasPrefix
 
-//@ verify NewPrefix pre=pre_NewPrefix post=post_NewPrefix props=C06,C19
+// @ verify NewPrefix pre=pre_NewPrefix post=post_NewPrefix props=C06,C19
 func pre_NewPrefix(ssid Ssid) bool { return len(ssid) >= 2 }
 func post_NewPrefix(ssid Ssid, from int64, res0 ID) bool {
 	return len(res0) == 8 && specBE32(res0, 0) == ssid[0]^ssid[1] && specBE32(res0, 4) == 4294967295-uint32(from-offset)
 }
 
-//@ verify (ID).Time pre=pre_ID8 post=post_ID_Time props=C06,C19
-func pre_ID8(id ID) bool { return len(id) >= 8 }
+// @ verify (ID).Time pre=pre_ID8 post=post_ID_Time props=C06,C19
+func pre_ID8(id ID) bool                  { return len(id) >= 8 }
 func post_ID_Time(id ID, res0 int64) bool { return res0 == specTime(id) }
 
-//@ verify (ID).SetTime pre=pre_ID8 post=post_ID_SetTime,post_ID_SetTime_frame props=C06,C19
+// @ verify (ID).SetTime pre=pre_ID8 post=post_ID_SetTime,post_ID_SetTime_frame props=C06,C19
 func post_ID_SetTime(id ID, t int64) bool {
 	// for every time the 32-bit second counter can hold, reading it back gives t
 	return t < offset || t > offset+4294967295 || specTime(id) == t
@@ -57,11 +57,11 @@ func post_ID_SetTime_frame(id ID, old_id ID) bool {
 		vs.Forall(8, len(id), func(i int) bool { return id[i] == old_id[i] })
 }
 
-//@ verify (ID).Contract pre=pre_ID20 post=post_ID_Contract props=C06,C19
-func pre_ID20(id ID) bool { return len(id) >= fixed+4 }
+// @ verify (ID).Contract pre=pre_ID20 post=post_ID_Contract props=C06,C19
+func pre_ID20(id ID) bool                      { return len(id) >= fixed+4 }
 func post_ID_Contract(id ID, res0 uint32) bool { return res0 == specWord(id, 0) }
 
-//@ verify (ID).HasPrefix pre=pre_ID_HasPrefix post=post_ID_HasPrefix props=C06
+// @ verify (ID).HasPrefix pre=pre_ID_HasPrefix post=post_ID_HasPrefix props=C06
 func pre_ID_HasPrefix(id ID, ssid Ssid) bool { return len(id) >= 8 && len(ssid) >= 2 }
 func post_ID_HasPrefix(id ID, ssid Ssid, cutoff int64, res0 bool) bool {
 	return res0 == (specBE32(id, 0) == ssid[0]^ssid[1] && specTime(id) >= cutoff)
@@ -69,8 +69,8 @@ func post_ID_HasPrefix(id ID, ssid Ssid, cutoff int64, res0 bool) bool {
 
 // ---- Ssid: word j of the result is the big-endian word at 16+4j
 
-//@ verify (ID).Ssid pre=pre_ID_Ssid post=post_ID_Ssid props=C19,C06
-//@ loop (ID).Ssid 0 inv inv_ID_Ssid modifies=ssid
+// @ verify (ID).Ssid pre=pre_ID_Ssid post=post_ID_Ssid props=C19,C06
+// @ loop (ID).Ssid 0 inv inv_ID_Ssid modifies=ssid
 func pre_ID_Ssid(id ID) bool { return len(id) >= fixed && len(id) <= specMaxID }
 func inv_ID_Ssid(i int, ssid Ssid, id ID) bool {
 	return 0 <= i && i <= len(ssid) && len(ssid) == (len(id)-fixed)/4 &&
@@ -87,8 +87,8 @@ func specLevelOK(id ID, query Ssid, j int) bool {
 	return query[j] == specWord(id, j) || query[j] == wildcard || query[j] == multiWildcard
 }
 
-//@ verify (ID).Match pre=pre_ID_Match post=post_ID_Match props=C06
-//@ loop (ID).Match 0 inv inv_ID_Match
+// @ verify (ID).Match pre=pre_ID_Match post=post_ID_Match props=C06
+// @ loop (ID).Match 0 inv inv_ID_Match
 func pre_ID_Match(id ID, query Ssid) bool {
 	return len(id) >= fixed && len(id) <= specMaxID && len(query) <= specMaxID
 }
@@ -104,7 +104,7 @@ func post_ID_Match(id ID, query Ssid, from int64, until int64, res0 bool) bool {
 
 // tenant isolation: a query of another contract never matches, unless that contract's id is one of the two
 // wildcard hashes (2 values in 2^32; recorded as an assumption in DESIGN section 9 #21)
-//@ lemma lemmaMatchContract pre=pre_lemmaMatchContract props=C06
+// @ lemma lemmaMatchContract pre=pre_lemmaMatchContract props=C06
 func pre_lemmaMatchContract(id ID, query Ssid) bool {
 	return pre_ID_Match(id, query) && len(query) >= 1 && query[0] != wildcard && query[0] != multiWildcard
 }
@@ -117,7 +117,7 @@ func lemmaMatchContract(id ID, query Ssid, from, until int64) bool {
 // specLess: the 8 bytes a[4:12] are lexicographically smaller than b[4:12] (ids of one channel share bytes 0..3).
 func specKey(id ID) uint64 { return uint64(specBE32(id, 4))<<32 | uint64(specBE32(id, 8)) }
 
-//@ lemma lemmaOrder pre=pre_lemmaOrder props=C19,C06
+// @ lemma lemmaOrder pre=pre_lemmaOrder props=C19,C06
 func pre_lemmaOrder(a, b ID) bool { return len(a) >= 12 && len(b) >= 12 }
 func lemmaOrder(a, b ID) bool {
 	// a later second, or the same second and a later sequence number (no wrap), gives a smaller key
@@ -127,8 +127,8 @@ func lemmaOrder(a, b ID) bool {
 
 // ---- NewID: the id gives back the ssid it was created for (C19), carries the query-key prefix (C06)
 
-//@ verify NewID pre=pre_NewID post=post_NewID_len,post_NewID_words,post_NewID_time,post_NewID_seq props=C19,C06
-//@ loop NewID 0 inv inv_NewID modifies=id
+// @ verify NewID pre=pre_NewID post=post_NewID_len,post_NewID_words,post_NewID_time,post_NewID_seq props=C19,C06
+// @ loop NewID 0 inv inv_NewID modifies=id
 func pre_NewID(ssid Ssid) bool { return len(ssid) >= 2 && len(ssid) <= 65536 }
 func inv_NewID(rangeindex int, ssid Ssid, id ID) bool {
 	return -1 <= rangeindex && rangeindex < len(ssid) && len(id) == fixed+4*len(ssid) &&
@@ -153,7 +153,7 @@ func post_NewID_seq(ssid Ssid, res0 ID) bool {
 }
 
 // Ssid(NewID(s)) = s and Contract(NewID(s)) = s[0], over the two contracts above
-//@ lemma lemmaIDRoundTrip pre=pre_lemmaIDRoundTrip props=C19
+// @ lemma lemmaIDRoundTrip pre=pre_lemmaIDRoundTrip props=C19
 func pre_lemmaIDRoundTrip(ssid Ssid, id ID, out Ssid) bool {
 	return pre_NewID(ssid) && post_NewID_len(ssid, id) && post_NewID_words(ssid, id) && post_ID_Ssid(id, out)
 }
@@ -166,7 +166,6 @@ func lemmaIDRoundTrip(ssid Ssid, id ID, out Ssid) bool {
 // Abstract view: a function  key -> count  where key = Ssid.GetHashCode() of a held filter. The contracts are
 // stated per key, with every other key framed. That the key is only an XOR fold of the levels (a/b and b/a
 // collide) is isolated in lemmaHashCodeInjective below; the bookkeeping contracts hold whatever the hash is.
-
 
 // specRep: stored pointers are non-nil and pairwise distinct, every stored count is >= 1.
 func specRep(s *Counters) bool {
@@ -196,10 +195,10 @@ func specMaxI(a, b int) int {
 }
 
 func pre_Counters(s *Counters, ssid Ssid) bool { return specRep(s) && len(ssid) >= 1 }
-func post_Rep(s *Counters) bool                 { return specRep(s) }
+func post_Rep(s *Counters) bool                { return specRep(s) }
 
 // IncrementOnce: "first" exactly when the filter was not held; afterwards it is held exactly once more than never
-//@ verify (*Counters).IncrementOnce pre=pre_Counters post=post_IncrementOnce,post_Rep props=C02,C08 opaque=(Ssid).GetHashCode
+// @ verify (*Counters).IncrementOnce pre=pre_Counters post=post_IncrementOnce,post_Rep props=C02,C08,C18 opaque=(Ssid).GetHashCode
 func post_IncrementOnce(s *Counters, ssid Ssid, res0 bool) bool {
 	h := ssid.GetHashCode()
 	return res0 == (oldCnt(s, h) == 0) && specCnt(s, h) == specMaxI(oldCnt(s, h), 1) &&
@@ -207,7 +206,7 @@ func post_IncrementOnce(s *Counters, ssid Ssid, res0 bool) bool {
 }
 
 // Increment: counts every call; "first" exactly when it was not held
-//@ verify (*Counters).Increment pre=pre_Counters_Inc post=post_Increment,post_Rep props=C02,C08 opaque=(Ssid).GetHashCode
+// @ verify (*Counters).Increment pre=pre_Counters_Inc post=post_Increment,post_Rep props=C02,C08,C18 opaque=(Ssid).GetHashCode
 func pre_Counters_Inc(s *Counters, ssid Ssid) bool {
 	return specRep(s) && len(ssid) >= 1 && specCnt(s, ssid.GetHashCode()) < 1<<62
 }
@@ -218,7 +217,7 @@ func post_Increment(s *Counters, ssid Ssid, res0 bool) bool {
 }
 
 // Decrement: "last" exactly when the count reaches 0, and then the entry is gone; an absent filter is a no-op
-//@ verify (*Counters).Decrement pre=pre_Counters post=post_Decrement,post_Rep props=C02,C08 opaque=(Ssid).GetHashCode
+// @ verify (*Counters).Decrement pre=pre_Counters post=post_Decrement,post_Rep props=C02,C08,C18 opaque=(Ssid).GetHashCode
 func post_Decrement(s *Counters, ssid Ssid, res0 bool) bool {
 	h := ssid.GetHashCode()
 	return res0 == (oldCnt(s, h) == 1) && specCnt(s, h) == specMaxI(oldCnt(s, h)-1, 0) &&
@@ -229,7 +228,7 @@ func post_Decrement(s *Counters, ssid Ssid, res0 bool) bool {
 // otherwise a second subscribe is acknowledged but not made, and unsubscribing one filter orphans the other
 // (C02), which then leaks on close (C08). GetHashCode is an XOR fold of the levels, so this FAILS for permuted
 // or repeated levels: a/b vs b/a, a/a vs b/b. Known finding, isolated here; see /verif/known_findings.json.
-//@ lemma lemmaFilterKeyInjective pre=pre_lemmaFilterKey props=C02,C08
+// @ lemma lemmaFilterKeyInjective pre=pre_lemmaFilterKey props=C02,C08
 func pre_lemmaFilterKey(a, b Ssid) bool { return len(a) == 3 && len(b) == 3 && a[0] == b[0] }
 func lemmaFilterKeyInjective(a, b Ssid) bool {
 	return (a[1] == b[1] && a[2] == b[2]) || a.GetHashCode() != b.GetHashCode()
@@ -261,8 +260,10 @@ func specPlainChannel(c, q0, q1, q2 uint32) bool {
 		q1 != share
 }
 
-//@ bounded standinTrieEmitter1 pre=pre_standinTrie1 props=C01 bound=1-subscriber,filter-depth-1,channel-depth-2,emitter-mode
-func pre_standinTrie1(c, a, q0, q1, q2 uint32) bool { return specPlainChannel(c, q0, q1, q2) && a != share }
+// @ bounded standinTrieEmitter1 pre=pre_standinTrie1 props=C01 bound=1-subscriber,filter-depth-1,channel-depth-2,emitter-mode
+func pre_standinTrie1(c, a, q0, q1, q2 uint32) bool {
+	return specPlainChannel(c, q0, q1, q2) && a != share
+}
 func standinTrieEmitter1(c, a, q0, q1, q2 uint32, id string) bool {
 	t := NewTrie()
 	s1 := &specSub{id: id}
@@ -281,7 +282,7 @@ func specB2I(b bool) int {
 	return 0
 }
 
-//@ bounded standinTrieEmitter2 pre=pre_standinTrie2 props=C01 bound=1-subscriber,filter-depth-2,channel-depth-2,emitter-mode
+// @ bounded standinTrieEmitter2 pre=pre_standinTrie2 props=C01 bound=1-subscriber,filter-depth-2,channel-depth-2,emitter-mode
 func pre_standinTrie2(c, a, b, q0, q1, q2 uint32) bool {
 	return specPlainChannel(c, q0, q1, q2) && a != share
 }
@@ -302,7 +303,7 @@ func standinTrieEmitter2(c, a, b, q0, q1, q2 uint32, id string) bool {
 }
 
 // mqtt mode: same depth, '+' matches one level, a trailing '#' matches one or more further levels
-//@ bounded standinTrieMqtt2 pre=pre_standinTrieMqtt2 props=C01 bound=1-subscriber,filter-depth-2,channel-depth-2,mqtt-mode
+// @ bounded standinTrieMqtt2 pre=pre_standinTrieMqtt2 props=C01 bound=1-subscriber,filter-depth-2,channel-depth-2,mqtt-mode
 func pre_standinTrieMqtt2(c, a, b, q0, q1, q2 uint32) bool {
 	return specPlainChannel(c, q0, q1, q2) && a != share && a != multiWildcard // '#' only as the last level
 }
@@ -317,7 +318,7 @@ func standinTrieMqtt2(c, a, b, q0, q1, q2 uint32, id string) bool {
 	return ok1 && t.Count() == 0 && len(t.root.children) == 0
 }
 
-//@ bounded standinTrieMqtt1 pre=pre_standinTrie1 props=C01 bound=1-subscriber,filter-depth-1,channel-depth-2,mqtt-mode
+// @ bounded standinTrieMqtt1 pre=pre_standinTrie1 props=C01 bound=1-subscriber,filter-depth-1,channel-depth-2,mqtt-mode
 func standinTrieMqtt1(c, a, q0, q1, q2 uint32, id string) bool {
 	t := NewTrieMQTT()
 	s1 := &specSub{id: id}
@@ -351,7 +352,7 @@ func specOthersSame(s *Subscribers, h uint32) bool {
 	})
 }
 
-//@ verify (*Subscribers).AddUnique pre=pre_Subscribers post=post_AddUnique_nil,post_AddUnique props=C01
+// @ verify (*Subscribers).AddUnique pre=pre_Subscribers post=post_AddUnique_nil,post_AddUnique props=C01
 func post_AddUnique_nil(s *Subscribers, value Subscriber, res0 bool) bool {
 	return value != nil || (!res0 && specOthersSame(s, 0) && vs.Has(*s, 0) == specHadKey(s, 0))
 }
@@ -364,7 +365,7 @@ func post_AddUnique(s *Subscribers, value Subscriber, res0 bool) bool {
 		((res0 && (*s)[h] == value) || (!res0 && (*s)[h] == specOldAt(s, h)))
 }
 
-//@ verify (*Subscribers).Remove pre=pre_Subscribers post=post_Remove props=C01
+// @ verify (*Subscribers).Remove pre=pre_Subscribers post=post_Remove props=C01
 func post_Remove(s *Subscribers, value Subscriber, res0 bool) bool {
 	if value == nil {
 		return !res0 && specOthersSame(s, 0) && vs.Has(*s, 0) == specHadKey(s, 0)
@@ -373,15 +374,17 @@ func post_Remove(s *Subscribers, value Subscriber, res0 bool) bool {
 	return res0 == specHadKey(s, h) && !vs.Has(*s, h) && specOthersSame(s, h)
 }
 
-//@ verify (*Subscribers).Contains pre=pre_Subscribers_Contains post=post_Contains props=C01
-func pre_Subscribers_Contains(s *Subscribers, value Subscriber) bool { return s != nil && *s != nil && value != nil }
+// @ verify (*Subscribers).Contains pre=pre_Subscribers_Contains post=post_Contains props=C01
+func pre_Subscribers_Contains(s *Subscribers, value Subscriber) bool {
+	return s != nil && *s != nil && value != nil
+}
 func post_Contains(s *Subscribers, value Subscriber, res0 bool) bool {
 	return res0 == vs.Has(*s, specHid(value)) && specOthersSame(s, 0) && vs.Has(*s, 0) == specHadKey(s, 0)
 }
 
 // two subscribers, one filter a level-wise prefix of the other: removing the deeper one must not detach the
 // node that still holds the shallower one (the cascade in orphan looks at the PARENT's subscribers)
-//@ bounded standinTriePrefixPair pre=pre_standinTriePair props=C01 bound=2-subscribers,filters-[c,a]-and-[c,a,b],emitter-mode
+// @ bounded standinTriePrefixPair pre=pre_standinTriePair props=C01 bound=2-subscribers,filters-[c,a]-and-[c,a,b],emitter-mode
 func pre_standinTriePair(c, a, b uint32, id1, id2 string) bool {
 	return c != wildcard && c != multiWildcard && a != share && a != wildcard && a != multiWildcard && b != wildcard && b != multiWildcard &&
 		hash.OfString(id1) != hash.OfString(id2)
@@ -410,20 +413,74 @@ func pre_any() bool { return true }
 // share-group selection (a sync.Pool of scratch state, a random pick) is kept outside this contract
 //@ assume (*Trie).randomByGroup iface
 
-//@ verify (*Trie).Lookup pre=pre_Trie_Lookup props=C09
+// @ verify (*Trie).Lookup pre=pre_Trie_Lookup props=C09
 func pre_Trie_Lookup(t *Trie, ssid Ssid) bool {
 	// the trie's own shape (set up by newTrie, kept by Subscribe/Unsubscribe): nodes stored as children are nodes
 	return t != nil && t.root != nil && t.root.children != nil && len(ssid) >= 1 &&
-		vs.ForallKey(t.root.children, func(k uint32) bool { return !vs.Has(t.root.children, k) || (t.root.children[k] != nil && t.root.children[k].children != nil) })
+		vs.ForallKey(t.root.children, func(k uint32) bool {
+			return !vs.Has(t.root.children, k) || (t.root.children[k] != nil && t.root.children[k].children != nil)
+		})
 }
 
-//@ verify (*Frame).Limit pre=pre_Frame_Limit props=C09
+// @ verify (*Frame).Limit pre=pre_Frame_Limit props=C09
 func pre_Frame_Limit(f *Frame) bool { return f != nil }
 
 // readBytes: the length prefix of a peer frame field is attacker-controlled; Decoder.Slice requires a length that
 // is not negative as an int (read off kelindar/binary's sliceReader.Slice: a negative n slices backwards and panics)
-//@ assume (*github.com/kelindar/binary.Decoder).Slice iface pre=pre_Decoder_Slice
+// @ assume (*github.com/kelindar/binary.Decoder).Slice iface pre=pre_Decoder_Slice
 func pre_Decoder_Slice(n int) bool { return n >= 0 }
 
-//@ verify readBytes pre=pre_readBytes props=C09
+// @ verify readBytes pre=pre_readBytes props=C09
 func pre_readBytes(d *binary.Decoder) bool { return d != nil }
+
+// ---------------------------------------------------------------------------------------------------------
+// Frame.Split (property C19): "splitting an outgoing frame for a peer never drops, duplicates or reorders
+// messages and respects the size bound". head and tail are VIEWS of f: head = f[:k], tail = f[k:] for one cut k
+// - so head followed by tail is f itself, element for element (unbounded: loop invariant); and the first message
+// is never left behind when it fits the bound (otherwise the caller's "until the chunk is empty" loop would
+// abandon the rest of the frame). The byte-size bound of the head needs the sum of the sizes: decided by the
+// bounded stand-in below (three messages, all sizes symbolic), listed as bounded.
+
+func specMsgSize(m *Message) int { return len(m.Payload) + len(m.ID) + len(m.Channel) + 20 }
+
+// @ verify (Frame).Split pre=pre_Frame_Split post=post_Frame_Split_views,post_Frame_Split_progress props=C19
+// @ loop (Frame).Split 0 inv inv_Frame_Split
+func pre_Frame_Split(f Frame, maxByteSize int) bool {
+	return 0 < maxByteSize && maxByteSize <= 1<<30 && vs.Forall(0, len(f), func(j int) bool {
+		return len(f[j].Payload) <= 1<<24 && len(f[j].ID) <= 1<<24 && len(f[j].Channel) <= 1<<24
+	})
+}
+func inv_Frame_Split(f Frame, i int, sum int, maxByteSize int) bool {
+	return 0 <= i && i <= len(f) && 0 <= sum && sum < maxByteSize && (i == 0) == (sum == 0)
+}
+func post_Frame_Split_views(f Frame, res0 Frame, res1 Frame) bool {
+	k := len(res0)
+	if len(f) == 0 {
+		return k == 0 && len(res1) == 0
+	}
+	return k <= len(f) && len(res1) == len(f)-k && vs.OffsetOf(res0, f) == 0 &&
+		(len(res1) == 0 || vs.OffsetOf(res1, f) == k)
+}
+func post_Frame_Split_progress(f Frame, maxByteSize int, res0 Frame) bool {
+	return len(f) == 0 || specMsgSize(&f[0]) >= maxByteSize || len(res0) >= 1
+}
+
+// @ loop (Frame).Split 0 unroll 4 for=standinFrameSplit3
+// @ bounded standinFrameSplit3 pre=pre_standinFrameSplit3 props=C19 bound=3-messages,all-field-lengths-symbolic
+func pre_standinFrameSplit3(p0, p1, p2, c0, c1, c2, max int) bool {
+	return 0 <= p0 && p0 <= 1<<20 && 0 <= p1 && p1 <= 1<<20 && 0 <= p2 && p2 <= 1<<20 &&
+		0 <= c0 && c0 <= 1<<20 && 0 <= c1 && c1 <= 1<<20 && 0 <= c2 && c2 <= 1<<20 && 0 < max && max <= 1<<26
+}
+func standinFrameSplit3(p0, p1, p2, c0, c1, c2, max int) bool {
+	f := Frame{
+		{Payload: make([]byte, p0), Channel: make([]byte, c0)},
+		{Payload: make([]byte, p1), Channel: make([]byte, c1)},
+		{Payload: make([]byte, p2), Channel: make([]byte, c2)},
+	}
+	s0, s1, s2 := p0+c0+20, p1+c1+20, p2+c2+20
+	head, tail := f.Split(max)
+	k := len(head)
+	sizes := [4]int{0, s0, s0 + s1, s0 + s1 + s2}
+	// the head stays strictly under the bound, and it is the LONGEST such prefix (nothing that still fits is held back)
+	return k+len(tail) == 3 && sizes[k] < max && (k == 3 || sizes[k+1] >= max)
+}
